@@ -318,7 +318,7 @@ impl Appender {
 struct SharedLogger {
     root: ConfiguredLogger,
     appenders: Vec<Appender>,
-    err_handler: Box<dyn Send + Sync + Fn(&anyhow::Error)>,
+    err_handler: Arc<dyn Send + Sync + Fn(&anyhow::Error)>,
 }
 
 impl fmt::Debug for SharedLogger {
@@ -342,6 +342,12 @@ impl SharedLogger {
     fn new_with_err_handler(
         config: config::Config,
         err_handler: Box<dyn Send + Sync + Fn(&anyhow::Error)>,
+    ) -> SharedLogger {
+        Self::new_with_shared_err_handler(config, Arc::from(err_handler))
+    }
+    fn new_with_shared_err_handler(
+        config: config::Config,
+        err_handler: Arc<dyn Send + Sync + Fn(&anyhow::Error)>,
     ) -> SharedLogger {
         let (appenders, root, mut loggers) = config.unpack();
 
@@ -472,7 +478,12 @@ impl Handle {
         // turns so that the pair left behind always belongs to one configuration.
         static SET_CONFIG: std::sync::Mutex<()> = std::sync::Mutex::new(());
 
-        let shared = Arc::new(SharedLogger::new(config));
+        // the error handler the logger was created with stays in charge
+        let err_handler = self.shared.load().err_handler.clone();
+        let shared = Arc::new(SharedLogger::new_with_shared_err_handler(
+            config,
+            err_handler,
+        ));
         let old = {
             let _guard = SET_CONFIG.lock().unwrap_or_else(|e| e.into_inner());
             log::set_max_level(shared.root.max_log_level());
